@@ -56,14 +56,14 @@ pub mod t {
         wf_harness!(opt, Option<u32>, 6, 0);
         wf_harness!(vec_usize, Vec<usize>, 10, 2);
         wf_harness!(s_mixed, SqMixed, 10, 1);
-        wf_harness!(s_nested, SqNested, 10, 0);
+        wf_harness!(s_nested, SqNested, 18, 0);
         wf_harness!(e_u16, EqU16, 6, 0);
     }
     pub mod r {
         use super::*;
         rc_harness!(opt, Option<u32>, 6, 0);
         rc_harness!(arr, [u16; 3], 8, 0);
-        rc_harness!(s_nested, SqNested, 10, 0);
+        rc_harness!(s_nested, SqNested, 18, 0);
         rc_harness!(e_u16, EqU16, 6, 0);
     }
 }
